@@ -1,5 +1,6 @@
 import Cherab.Props.C15TableAux
 open Cherab.Props.C15TableAux
 #print axioms table_wf_partial
+#print axioms table_broadcast_wf_partial
 #print axioms table_lookup
 #print axioms classes_declared
